@@ -37,8 +37,9 @@ THEOREMS = [
     "Verif.C08.gap_le_window",
     "Verif.C08.gap_le_window'",
     "Verif.C08.linked_implies_accepted",
-    # "Verif.C08.link_best",
-    # "Verif.C08.start_order",
+    "Verif.C08.link_best",
+    "Verif.C08.link_stops_without_candidate",
+    "Verif.C08.start_order",
     "Verif.C08.accepted_in_cone",
     "Verif.C08.cone_real",
     "Verif.C08.cone_real'",
